@@ -44,3 +44,64 @@ META = {
     "C15": _m("Generated wide universes (one package with n candidates, revealed through 1-3 requirements in several orders) require candidate pairs (must be Unsolvable per the oracle) and single candidates (must be solvable); every n <= 9 with all pairs, and n in {15,16,17,31,32,33,40} with all pairs; verdict and validity judged by TLC.", "6 C15", "TLA+ trace validation (TLC) of enumerated wide-package problems"),
     "C14": _m("Soft-requirement problems: validity with the documented exemption, no error when the hard problem is satisfiable, and inclusion of the cleanly compatible prefix (SoftObliged), all evaluated by TLC.", "6 C14", "TLA+ trace validation (TLC)"),
 }
+
+
+# ---------------------------------------------------------------------------
+# C19 Mapping
+# ---------------------------------------------------------------------------
+def _c19(prop, tier, seed, t0):
+    ids = "0,1,127,128,300" if tier == "quick" else "0,1,2,126,127,128,129,255,256,1000"
+    rep = check.graph_replay(prop, "mapping", "MC_Mapping.tla", f"MC_Mapping_{tier}.cfg", "mapping", ["--ids", ids],
+                             workers=8)
+    return check.finish_graph_check(prop, tier, seed, t0, [rep], {"ids": ids})
+
+
+CHECKS["C19"] = _c19
+META["C19"] = _m("TLC checks the Mapping model's invariants (len = number of stored ids, iteration complete and ascending) on its complete state graph for a bounded id alphabet that crosses the 128-slot chunk boundary, and every transition (insert / unset / serde round trip) is replayed on a real resolvo::Mapping comparing get, len, is_empty, iter and the serialised length.", "6 C19", "TLC state-graph generation + replay of every transition into the real Mapping",
+                 note="Trusted: Mapping.tla's observation function; bounded alphabet of ids (quick 5 ids x 2 values, thorough 10 ids). Exhaustive for that alphabet.")
+
+
+# ---------------------------------------------------------------------------
+# C18 Pool, C20 SolverCache: state-graph replay
+# ---------------------------------------------------------------------------
+def _c18(prop, tier, seed, t0):
+    rep = check.graph_replay(prop, "pool", "MC_Pool.tla", f"MC_Pool_{tier}.cfg", "pool", [], workers=8)
+    return check.finish_graph_check(prop, tier, seed, t0, [rep])
+
+
+def _c20(prop, tier, seed, t0):
+    rep = check.graph_replay(prop, "cache", "MC_Cache.tla", f"MC_Cache_{tier}.cfg", "cache", ["--universe", "-"],
+                             workers=8)
+    rc = check.finish_graph_check(prop, tier, seed, t0, [rep])
+    # impl -> spec: availability queries issued from inside sort_candidates during real solves
+    check.enable_rules(prop)
+    exe = vlib.build_harness("release")
+    wd = os.path.join(vlib.WORK, prop)
+    n = 150 if tier == "quick" else 3000
+    allc = os.path.join(wd, "reenter.all")
+    cnt = vlib.gen_cases(exe, allc, "solve:base,hints,hintsall,soft", n, seed, "reenter", whitebox=False, render=False)
+    files = vlib.split_file(allc, 8, wd, "reenter")
+    res = vlib.run_and_validate(exe, files, prop)
+    fails = [f for f in vlib.first_fail_per_run(res.fails) if check.owner(f["rule"]) == prop]
+    ev = json.load(open(os.path.join(vlib.EVIDENCE, f"{prop}.json")))
+    ev["coverage"]["reentrant_runs_validated"] = res.runs
+    ev["coverage"]["reentrant_trace_events"] = res.transitions
+    ev["coverage"]["traces_validated_against_impl"] += res.runs
+    ev["wall_s"] = round(time.time() - t0, 1)
+    for f in fails[:1]:
+        path = vlib.write_replay(prop, f)
+        print(f"VIOLATION property={prop} replay={path}")
+        rc = 1
+    ev["violations"] = ev.get("violations", 0) + len(fails)
+    json.dump(ev, open(os.path.join(vlib.EVIDENCE, f"{prop}.json"), "w"), indent=1)
+    return rc
+
+
+import json, os, time
+import vlib
+CHECKS["C18"] = _c18
+CHECKS["C20"] = _c20
+META["C18"] = _m("TLC checks InternUnique on the Pool model and prints its complete state graph (names, strings, version sets interned by value; solvables and unions fresh and dense), optionally preceded by a bulk load of 127-129 (thorough: 126-300) items per table so that later operations cross the arenas' 128-element chunk boundaries; every transition is replayed on a real Pool, comparing returned ids, all tables, lookups, and that every reference handed out earlier still has the same address and value.", "6 C18", "TLC state-graph generation + replay of every transition into the real Pool",
+                 note="Trusted: Pool.tla; address stability is observed (pointer equality of re-resolved references), undefined behaviour that does not move memory is invisible. Bounded alphabet.")
+META["C20"] = _m("TLC checks Partition and SortedIsPermutation on the Cache model and prints the complete query graph over a family of two-package universes (favored in every position, hints none/all/some, missing package, empty version set, union requirement); every transition is replayed on a real SolverCache comparing the returned value, the exact sequence of provider calls (none for a repeated query) and the availability answer for every solvable. In addition real solves whose sort_candidates re-enters the cache are validated by TLC (C20_Availability).", "6 C20", "TLC state-graph generation + replay into the real SolverCache; TLA+ trace validation of re-entrant queries",
+                 note="Trusted: Cache.tla and Universe.tla (Sorted, Match); bounded universe family and query alphabet.")
